@@ -296,10 +296,13 @@ class Judge:
                 self.note('F.no-panic', lab, False, 'get_url_params panics on %s: %s' % (lab, short(pan[-1][1:3]) if pan else '?'))
                 continue
             if o.kind not in ('val', 'ret') or und:
-                rule = 'F6.split-on-comma' if (c['ext'] is not None and c['ext'][1]) else 'F.evaluated'
+                rule = 'F6.extension-list-evaluated' if (c['ext'] is not None and c['ext'][1]) else 'F.evaluated'
                 self.note(rule, einst if rule.startswith('F6') else lab, False,
-                          'on %s the function could not be evaluated to a result (%s): the extension list is not walked as the \',\'-separated items of field 3, or a construct has no model' %
+                          'on %s the function could not be evaluated to a result (%s): a test depends on something the models do not decide for this class (e.g. the extension '
+                          'list is not walked as the \',\'-separated items of field 3, two unknown texts are compared, or a construct has no model) - the class fails closed' %
                           (lab, 'undecided: ' + short(und[0]) if und else 'path ends as ' + o.kind))
+                if rule.startswith('F6') and not q4:
+                    self.ext_failed = True
                 continue
             self.note('F.no-panic', 'all classes', True)
             v = strip_tryerr(o.val)
@@ -417,8 +420,16 @@ class Judge:
             rule = 'F4.invalid-scope-is-error' if exp['scope'][0] == 'invalid' else 'F4.scope'
             self.note(rule, inst[rule], ok, 'on %s InvalidScopeString(%s) is returned; an unknown scope word - and only that - must be InvalidScopeString(<word>)' % (lab, short(err[2][0]) if err[2] else ''))
         elif kind == 'LdapError::UnrecognizedCriticalExtension':
-            self.note('F6.unknown-critical-is-error', einst, bool(unknown_crit),
-                      'on %s UnrecognizedCriticalExtension is returned; it must be returned exactly for an unrecognised extension marked with "!"' % lab)
+            if unknown_crit or any(x['kind'] is None for x in exp['exts']) or not exp['exts']:
+                self.note('F6.unknown-critical-is-error', einst, bool(unknown_crit),
+                          'on %s UnrecognizedCriticalExtension is returned; it must be returned exactly for an unrecognised extension marked with "!"' % lab)
+            else:
+                # every extension of the class is a recognised one: the "!" of a recognised extension is not part of its id
+                marked = [x for x in exp['exts'] if x['crit']]
+                mixed = marked and all(x['id'][0] == 'lit' and x['id'][1] not in OIDS and x['id'][1] != x['id'][1].lower() for x in marked)
+                for r in (('F6.case-insensitive-names',) if mixed else ('F6.criticality-marker', 'F6.recognition-table')):
+                    self.note(r, einst, False, 'on %s UnrecognizedCriticalExtension is returned although every extension is a recognised one: the recognition table holds for an '
+                              'extension marked "!" as for an unmarked one (the marker is stripped before the id is looked up)' % lab)
         else:
             self.note('F.error-kind', lab, False, 'on %s the error %s is returned; C20 knows DecodingUTF8, InvalidScopeString, UnrecognizedCriticalExtension' % (lab, short(err)))
 
